@@ -393,3 +393,131 @@ _mult_contract('two-segments', 1, 'array', 'array', 'array', nseg=2)
 _mult_contract('default-plane', 1, 'scalar', 'scalar', 'scalar')
 _mult_contract('default-plane-default-wavefront', 1, 'scalar', 'scalar', 'scalar', scalar_field=True)
 _mult_contract('pupil', 1, 'array', 'array', 'array', cls='lentil.plane.Pupil', ptype='pupil')
+
+
+# ---------------------------------------------------------------------------------------
+# tilt elements (C04)
+
+def tilt_lemmas():
+    def tilt_shift_translation(ctx):
+        """Tilt(x=a, y=b).shift(xs, ys, z) = (xs - z*b, ys - z*a): a pure translation."""
+        a, b = ctx.fresh_real('a'), ctx.fresh_real('b')
+        t = new(ctx, 'lentil.plane.Tilt', x=a, y=b)
+        xs, ys, zz = ctx.fresh_real('xs'), ctx.fresh_real('ys'), ctx.fresh_real('z')
+        r = ctx.world.interp.call_function(ctx, t.cls.methods['shift'], [t], {'xs': xs, 'ys': ys, 'z': zz, 'wavelength': ctx.fresh_real('wl')})
+        ctx.oblige('C04::Tilt.shift.translation', z3.And(S.z(S.eq(r[0], S.sub(xs, S.mul(zz, b)))),
+                                                        S.z(S.eq(r[1], S.sub(ys, S.mul(zz, a))))))
+
+    def dispersive_first_order(ctx):
+        """DispersiveTilt with a linear trace y = a x + b and a linear dispersion lambda = d0 s + d1:
+        the displacement (dx, dy) does not depend on the incoming (xs, ys), lies on the trace, and sits at
+        the arc length s that the dispersion polynomial maps to the wavelength."""
+        a, b, d0, d1 = [ctx.fresh_real(n) for n in ('a', 'b', 'd0', 'd1')]
+        ctx.assume(d0 != 0)
+        t = new(ctx, 'lentil.plane.DispersiveTilt', trace=PyList([a, b]), dispersion=PyList([d0, d1]))
+        wl = ctx.fresh_real('wl')
+        res = []
+        for k in range(2):
+            xs, ys = ctx.fresh_real('xs%d' % k), ctx.fresh_real('ys%d' % k)
+            r = ctx.world.interp.call_function(ctx, t.cls.methods['shift'], [t], {'wavelength': wl, 'xs': xs, 'ys': ys})
+            res.append((S.sub(r[0], xs), S.sub(r[1], ys)))
+        (dx0, dy0), (dx1, dy1) = res
+        ctx.oblige('C04::DispersiveTilt.shift.translation', z3.And(S.z(S.eq(dx0, dx1)), S.z(S.eq(dy0, dy1))))
+        ctx.oblige('C04::DispersiveTilt.shift.on_trace', S.z(S.eq(dy0, S.add(S.mul(a, dx0), b))))
+        s = L.sqrt_scalar(ctx, S.add(1, S.mul(a, a)))
+        dist = S.mul(dx0, s)
+        ctx.oblige('C04::DispersiveTilt.shift.arc_length_maps_to_wavelength', S.z(S.eq(S.add(S.mul(d0, dist), d1), wl)))
+
+    def order_independent(ctx):
+        """Displacements of several tilt elements add and do not depend on their order."""
+        t0, t1 = W.mk_tilt(ctx, 't0'), W.mk_tilt(ctx, 't1')
+        du = (ctx.fresh_real('du_r'), ctx.fresh_real('du_c'))
+        ctx.assume(z3.And(du[0] > 0, du[1] > 0))
+        zz, wl, os_ = ctx.fresh_real('z'), ctx.fresh_real('wl'), ctx.fresh_int('os')
+        ctx.assume(os_ >= 1)
+        shift = ctx.world.repo.function('lentil.field.Field.shift')
+        ctx.no_model = {'lentil.field.Field.shift'}
+        out = []
+        for order in ((t0, t1), (t1, t0)):
+            f = F.mk_field(ctx, 'f', 'array', tilt=PyList(list(order)))
+            out.append(ctx.world.interp.call_function(ctx, shift, [f], {'z': zz, 'wavelength': wl, 'pixelscale': du, 'oversample': os_}))
+        ctx.oblige('C04::Field.shift.order_independent', z3.And(S.z(S.eq(out[0][0], out[1][0])), S.z(S.eq(out[0][1], out[1][1]))))
+
+    def ramp_equals_metadata(ctx):
+        """A linear OPD ramp t * (r dx) on an axis multiplies the pupil by exp(2 pi i t r dx / lambda); with
+        alpha = dx du / (lambda z os) this is the Fraunhofer kernel evaluated at u - s with s = z t os / du on the
+        SAME axis: exp(2 pi i t r dx/lambda) e(alpha, r, u) = e(alpha, r, u - s)  (phases equal)."""
+        t, dx, du, lam, zz = [ctx.fresh_real(n) for n in ('t', 'dx', 'du', 'lam', 'z')]
+        os_ = ctx.fresh_int('os')
+        r, u = ctx.fresh_int('r'), ctx.fresh_real('u')
+        ctx.assume(z3.And(dx > 0, du > 0, lam > 0, zz > 0, os_ >= 1))
+        alpha = S.truediv(S.mul(dx, du), S.mul(S.mul(lam, zz), os_))
+        s = S.truediv(S.mul(S.mul(zz, t), os_), du)
+        twopi = S.mul(2, L.PI)
+        lhs = S.sub(S.truediv(S.mul(S.mul(S.mul(twopi, t), r), dx), lam), S.mul(S.mul(S.mul(twopi, alpha), r), u))
+        rhs = S.neg(S.mul(S.mul(S.mul(twopi, alpha), r), S.sub(u, s)))
+        ctx.oblige('C04::ramp_phase_equals_shifted_kernel_phase', S.z(S.eq(lhs, rhs)))
+
+    def wavefront_tilt_argument(ctx):
+        """Wavefront(tilt=[rx, ry]) wraps Tilt(x=rx, y=ry) into its initial field."""
+        rx, ry = ctx.fresh_real('rx'), ctx.fresh_real('ry')
+        w = new(ctx, 'lentil.wavefront.Wavefront', ctx.fresh_real('wl'), tilt=PyList([rx, ry]))
+        f = w.attrs['data'].items[0]
+        ts = f.attrs['tilt'].items
+        ok = len(ts) == 1 and ts[0].cls.name == 'Tilt'
+        ctx.oblige('C04::Wavefront.tilt.wrapped', ok)
+        if ok:
+            # Tilt stores (x, y) swapped: self.x = y angle, self.y = x angle
+            ctx.oblige('C04::Wavefront.tilt.angles', z3.And(S.z(S.eq(ts[0].attrs['y'], rx)), S.z(S.eq(ts[0].attrs['x'], ry))))
+    return [('C04::Tilt.shift', tilt_shift_translation), ('C04::DispersiveTilt.first_order', dispersive_first_order),
+            ('C04::Field.shift.order', order_independent), ('C04::ramp_equals_metadata', ramp_equals_metadata),
+            ('C04::Wavefront(tilt=)', wavefront_tilt_argument)]
+
+
+# multiply hands every recorded tilt of a segment to its phasor (history clause: fit, change OPD, fit again)
+def _mult_tilts_contract():
+    c = contract('lentil.plane.Plane.multiply#fitted-tilts', level='I')
+    c.qualname = 'lentil.plane.Plane.multiply'
+    c.tag = 'fitted-tilts'
+
+    def params(ctx):
+        nfit = 1 if ctx.branch(ctx.fresh_bool('one_fit')) else 2
+        tilts = [W.mk_tilt(ctx, 'T%d' % k) for k in range(2 * nfit)]
+        p = mk_plane(ctx, 'p', 'array', 'array', 'array', nseg=2, tilt=PyList(tilts))
+        f = F.mk_field(ctx, 'f0', 'array', tilt=PyList([W.mk_tilt(ctx, 'tw')]))
+        h, w_ = f.attrs['data'].shape
+        ctx.assume(z3.Not(z3.And(h == 1, w_ == 1)))
+        w = W.mk_wavefront(ctx, [f], ptype='none', shape=shape2(ctx, 'w.shape'), pixelscale=None)
+        return {'self': p, 'wavefront': w}
+    c.params = params
+    c.witnesses['single-pixel-product-or-phasor'] = _single_pixel
+
+    @c.post('every_recorded_tilt_of_the_segment_is_applied')
+    def _(ctx, env0, env, out):
+        p, w0, res = env['self'], env['wavefront'], out.value
+        tl = p.attrs['tilt'].items
+        size = 2
+        f = w0.attrs['data'].items[0]
+        got = res.attrs['data'].items
+        mask = p.attrs['_mask']
+        n, m = mask.shape[-2], mask.shape[-1]
+        k = 0
+        for seg in range(size):
+            sl = p.attrs['_slice'].items[seg]
+            rs, cs = sl
+            offp = H.slice_offset_model(ctx, {'slice': sl, 'shape': (n, m)})
+            pe = X.array_extent_model(ctx, {'shape': (S.sub(rs.stop, rs.start), S.sub(cs.stop, cs.start)), 'shift': offp, 'parent_shape': None})
+            if ctx.branch(X.intersect_model(ctx, {'a': f.attrs['extent'], 'b': pe})):
+                if k >= len(got):
+                    return False
+                want = list(f.attrs['tilt'].items) + [tl[j] for j in range(seg, len(tl), size)]
+                have = got[k].attrs['tilt'].items
+                ctx.oblige('plane.Plane.multiply::tilts_of_segment[fitted-tilts]',
+                           len(have) == len(want) and all(a is b for a, b in zip(have, want)),
+                           info={'have': len(have), 'want': len(want)})
+                k += 1
+        return k == len(got)
+    return c
+
+
+_mult_tilts_contract()
